@@ -55,7 +55,7 @@ Definition spec (c : cname) (o : op) : option soutcome :=
           match o with
           | OpStr => Some (SSucceeds match fl with BD => SDebugInfo | _ => SEmptyString end)
           | OpBool => Some (SSucceeds (SBool false))
-          | OpIter => Some (SSucceeds SEmptyIteration)
+          | OpIter | OpAiter => Some (SSucceeds SEmptyIteration)
           | OpLen => Some (SSucceeds SLengthZero)
           | OpContains _ => Some (SSucceeds (SBool false))
           | OpHash => Some (SSucceeds SHashOfType)
@@ -91,7 +91,7 @@ Definition all_others : list other := [OB KInt; OB KFloat; OB KStr; OB KNone; OB
 Definition all_ariths : list arith := [Add; Sub; Mul; Div; FloorDiv; Mod; Pow].
 Definition all_cmps : list cmp := [CEq; CNe; CLt; CLe; CGt; CGe].
 Definition all_ops : list op :=
-  [OpStr; OpBool; OpIter; OpLen; OpHash; OpPos; OpNeg; OpInt; OpFloat; OpCall; OpCallT; OpGetAttr; OpGetDunder;
+  [OpStr; OpBool; OpIter; OpAiter; OpLen; OpHash; OpPos; OpNeg; OpInt; OpFloat; OpCall; OpCallT; OpGetAttr; OpGetDunder;
    OpGetItem; OpIsDefined; OpIsUndefined; OpDefault; OpCopy; OpDeepcopy; OpPickle]
   ++ map OpContains all_others
   ++ map OpRevContains [RCStr; RCList; RCDict]
@@ -118,7 +118,7 @@ Definition has_err (l : list logev) := existsb (fun e => match e with LErr Self 
 (* printing and iteration of a logging undefined are logged *)
 Definition log_print_iter_ok (T : tables) (F : facts) (x : cname * op) : bool :=
   match x with
-  | (Logging b, OpStr) | (Logging b, OpIter) => has_warn (snd (dispatch T F (Logging b) (snd x)))
+  | (Logging b, OpStr) | (Logging b, OpIter) | (Logging b, OpAiter) => has_warn (snd (dispatch T F (Logging b) (snd x)))
   | _ => true
   end.
 (* "logging on failures": an UndefinedError raised by the logging undefined itself is logged *)
